@@ -47,12 +47,12 @@ fn families(quick: bool) -> Vec<LmFamily> {
             offsets: vec![0.0],
             named: false,
         });
-        // half-bounded declarations: each adapter has to forward exactly one finite side
+        // half-bounded declarations (each adapter has to forward exactly one finite side) and bounds that coincide with 0
         v.push(LmFamily {
             name: "F7q-half-bounded",
             n: 2,
             m: 1,
-            doms: vec![Dom::Real(f64::NEG_INFINITY, 2.0), Dom::Real(-1.0, f64::INFINITY), Dom::NonNegB(1.0, f64::INFINITY), Dom::NonNeg],
+            doms: vec![Dom::Real(f64::NEG_INFINITY, 2.0), Dom::Real(-1.0, f64::INFINITY), Dom::NonNegB(1.0, f64::INFINITY), Dom::NonNeg, Dom::Real(0.0, 3.0), Dom::Real(-2.0, 0.0), Dom::Int(0, 1), Dom::Int(-2, -1)],
             coefs: vec![-1.0, 0.0, 2.0],
             rhss: vec![-1.0, 2.0],
             rels: vec![Rel::Le, Rel::Ge, Rel::Eq],
